@@ -33,9 +33,11 @@ FromList(q) == [p \in Paths |-> LET m == {i \in DOMAIN q : q[i].p = p} IN
 TInit == TLCSet(1, 0) /\ Init /\ l = 2
 
 TGetInv == Ev("GetInv") /\ GetInv(E.c, E.p)
+\* the event carries what the KV store answered: the text, and the ModifyIndex (table index for a missing key)
 TGet    == Ev("Get") /\ \E c \in Clients :
               /\ pc[c] = "get" /\ req[c].path = E.p /\ GetLin(c)
-              /\ res'[c].val = E.val /\ res'[c].ver = E.ver
+              /\ res'[c].val = E.val
+              /\ E.ver = (IF doc[E.p].present THEN doc[E.p].mi ELSE gidx)
 TGetRet == /\ Ev("GetRet") /\ pc[E.c] = "ret" /\ req[E.c].op = "get" /\ res[E.c].status = E.status
            /\ (E.status = 200 => res[E.c].val = E.val /\ res[E.c].ver = E.ver)
            /\ Ret(E.c)
